@@ -289,6 +289,32 @@ pub fn hw_session(forms: &[String]) -> String {
     out
 }
 
+/// evaluate the forms k times in ONE vm (failures included), then report heap and
+/// stack statistics: growth must not depend on k (C07, C12)
+#[cfg(marwood_verif)]
+pub fn repeat_stats(k: usize, forms: &[String]) -> String {
+    let (mut vm, _log) = new_vm();
+    let mut last = String::new();
+    for _ in 0..k {
+        for f in forms {
+            last.clear();
+            eval_text_all(&mut vm, f, &mut last);
+        }
+    }
+    format!(
+        "STATS last={} heapcap={} heapused={} scap={} sp={}",
+        last.trim(),
+        vm.verif_heap_capacity(),
+        vm.verif_heap_used(),
+        vm.verif_stack_capacity(),
+        vm.verif_sp()
+    )
+}
+#[cfg(not(marwood_verif))]
+pub fn repeat_stats(_k: usize, _forms: &[String]) -> String {
+    "STATS nohooks".into()
+}
+
 pub fn run(c: &[String]) -> String {
     let id: u64 = c[0].parse().unwrap_or(0);
     match id {
@@ -310,6 +336,10 @@ pub fn run(c: &[String]) -> String {
         },
         75 => match take_texts(&c[1..]) {
             Some(forms) => hw_session(&forms),
+            None => "BADCASE".into(),
+        },
+        76 => match take_texts(&c[2..]) {
+            Some(forms) => repeat_stats(c[1].parse().unwrap(), &forms),
             None => "BADCASE".into(),
         },
         _ => "BADCASE".into(),
